@@ -134,7 +134,9 @@ pub(crate) mod verif_rig_style {
         ok
     }
 
-    pub(crate) fn tab_rewriter<'a>(w: &'a mut dyn fmt::Write, tw: usize) -> TabRewriter<'a> {
-        TabRewriter(w, tw)
+    /// one write through the (private) TabRewriter that format_state wraps around custom keys
+    pub(crate) fn tab_rewrite(w: &mut dyn fmt::Write, tw: usize, s: &str) -> fmt::Result {
+        use std::fmt::Write as _;
+        TabRewriter(w, tw).write_str(s)
     }
 }
